@@ -664,12 +664,116 @@ func retrieveValidates(c *Ctx) {
 			return true
 		})
 		pos := c.P.Pos(rs.Pos())
-		c.check(readErr, R, construct+"#read-error", pos, "read error exits first", "a document is returned without a preceding exit on the read error")
-		c.check(decodeErr, R, construct+"#decode-error", pos, "decode error exits first", "a document is returned without a preceding exit on the decode error")
+		// the two error exits are decided on SSA, where a shadowed or overwritten error variable is
+		// a different value: the error of every reading call and of every decoding call reached from
+		// Retrieve is compared with nil and its failure branch ends in a non-nil error
+		rOK, dOK, why := retrieveErrorExits(c, R)
+		readErr, decodeErr = readErr && rOK, decodeErr && dOK
+		if why != "" {
+			why = " (" + why + ")"
+		}
+		c.check(readErr, R, construct+"#read-error", pos, "read error exits first", "a document is returned without a preceding exit on the read error"+why)
+		c.check(decodeErr, R, construct+"#decode-error", pos, "decode error exits first", "a document is returned without a preceding exit on the decode error"+why)
 		c.check(identity, R, construct+"#identity", pos, "identifier mismatch exits first", "a document is returned without comparing its identifier with the requested one: an empty or foreign entry (proto.Unmarshal accepts zero bytes) comes back as a valid-looking document")
 		return true
 	})
 	c.floor(R, 4, "three failure returns and one success return")
+}
+
+// retrieveErrorExits: over Retrieve and the storage-package functions it reaches, the error of
+// each file-reading call and of each Unmarshal call propagates, and so does the error result of
+// each storage-package helper called on the way.
+func retrieveErrorExits(c *Ctx, R string) (readOK, decodeOK bool, why string) {
+	root := c.P.Func(retrieveFn)
+	if root == nil {
+		return false, false, "Retrieve has no SSA body"
+	}
+	seen := map[*ssa.Function]bool{}
+	var fns []*ssa.Function
+	var visit func(f *ssa.Function)
+	visit = func(f *ssa.Function) {
+		if f == nil || seen[f] || f.Blocks == nil {
+			return
+		}
+		seen[f] = true
+		fns = append(fns, f)
+		for _, b := range f.Blocks {
+			for _, ins := range b.Instrs {
+				if call, ok := ins.(ssa.CallInstruction); ok {
+					if sc := call.Common().StaticCallee(); sc != nil && sc.Pkg != nil && sc.Pkg == root.Pkg {
+						visit(sc)
+					}
+				}
+			}
+		}
+	}
+	visit(root)
+	nRead, nDecode := 0, 0
+	readOK, decodeOK = true, true
+	for _, f := range fns {
+		for _, b := range f.Blocks {
+			for _, ins := range b.Instrs {
+				call, ok := ins.(*ssa.Call)
+				if !ok {
+					continue
+				}
+				sc := call.Common().StaticCallee()
+				if sc == nil {
+					continue
+				}
+				kind := ""
+				switch full := sc.String(); {
+				case full == "os.ReadFile" || full == "io.ReadAll" || full == "os.Open" || full == "os.OpenFile" || full == "io.ReadFull":
+					kind = "read"
+				case strings.Contains(sc.Name(), "Unmarshal"):
+					kind = "decode"
+				case sc.Pkg != nil && sc.Pkg == root.Pkg:
+					kind = "helper"
+				}
+				if kind == "" {
+					continue
+				}
+				ev := errResultOf(call)
+				if ev == nil {
+					if res := call.Common().Signature().Results(); res.Len() > 0 && res.At(res.Len()-1).Type().String() == "error" {
+						// the error result is dropped
+						switch kind {
+						case "read", "helper":
+							readOK = false
+						case "decode":
+							decodeOK = false
+						}
+						why = fmt.Sprintf("%s: the error of %s is dropped", fnName(f), sc.Name())
+					}
+					continue
+				}
+				okp, w := errValPropagates(f, ev)
+				switch kind {
+				case "read":
+					nRead++
+					readOK = readOK && okp
+				case "decode":
+					nDecode++
+					decodeOK = decodeOK && okp
+				case "helper":
+					// a helper's error stands for whichever exit it contains
+					readOK = readOK && okp
+					decodeOK = decodeOK && okp
+				}
+				if !okp {
+					why = fmt.Sprintf("%s: error of %s: %s", fnName(f), sc.Name(), w)
+				}
+				c.CallSites++
+			}
+		}
+	}
+	if nRead == 0 {
+		readOK, why = false, "no file-reading call reached from Retrieve"
+	}
+	if nDecode == 0 {
+		decodeOK, why = false, "no Unmarshal call reached from Retrieve"
+	}
+	return readOK, decodeOK, why
 }
 
 // topLevelDisjunct: atom is cond itself or reachable from cond through || (and parentheses) only.
@@ -763,6 +867,31 @@ func errorPropagates(fn *ssa.Function, name string) (bool, string) {
 	if errVal == nil {
 		return false, "the backend call or its error result was not found"
 	}
+	return errValPropagates(fn, errVal)
+}
+
+// errResultOf: the SSA value holding the error (last) result of a call, nil when it has none or
+// the result is dropped.
+func errResultOf(call *ssa.Call) ssa.Value {
+	errT := types.Universe.Lookup("error").Type()
+	res := call.Common().Signature().Results()
+	if res.Len() == 0 || !types.Identical(res.At(res.Len()-1).Type(), errT) {
+		return nil
+	}
+	if res.Len() == 1 {
+		return call
+	}
+	for _, ref := range *call.Referrers() {
+		if ex, ok := ref.(*ssa.Extract); ok && ex.Index == res.Len()-1 {
+			return ex
+		}
+	}
+	return nil
+}
+
+// errValPropagates: errVal is compared with nil and every return reached from the non-nil branch
+// returns a non-nil error; an error handed straight to the caller (return f(...)) also propagates.
+func errValPropagates(fn *ssa.Function, errVal ssa.Value) (bool, string) {
 	// the branch on errVal != nil
 	var region *ssa.BasicBlock
 	for _, ref := range *errVal.Referrers() {
@@ -790,7 +919,16 @@ func errorPropagates(fn *ssa.Function, name string) (bool, string) {
 		}
 	}
 	if region == nil {
-		return false, "the backend error is never compared with nil"
+		direct := false
+		for _, ref := range *errVal.Referrers() {
+			if r, ok := ref.(*ssa.Return); ok && len(r.Results) > 0 && r.Results[len(r.Results)-1] == errVal {
+				direct = true
+			}
+		}
+		if direct {
+			return true, ""
+		}
+		return false, "the error is never compared with nil"
 	}
 	nonNil := func(v ssa.Value) bool {
 		for {
